@@ -65,6 +65,7 @@ func TestC10(t *testing.T) {
 	defer func() { run.Count("durable_appends_with_the_reply_lost_after_commit", lostAcks.Load()) }()
 	defer func() { run.Count("appended_documents_of_1_to_3_MiB", bigDocs.Load()) }()
 	defer func() { run.Count("streams_ranged_a_second_time_after_an_early_stop", rerangedStreams.Load()) }()
+	defer func() { run.Count("offset_saves_by_the_consumer_of_an_open_stream", consumerWrites.Load()) }()
 	scratch := os.Getenv("VERIF_SCRATCH")
 	if scratch == "" {
 		scratch = t.TempDir()
@@ -381,7 +382,7 @@ func doAppend(ctx context.Context, rng *rand.Rand, s *sut, viol violFn, fl *flag
 // lostAckAppend (durable-streams): the server commits the append, the reply is lost (503). Whatever
 // the client makes of that, the event is in the log exactly once: every later read is compared with
 // a reference log that contains it once.
-var lostAcks, bigDocs, rerangedStreams atomic.Int64
+var lostAcks, bigDocs, rerangedStreams, consumerWrites atomic.Int64
 
 func lostAckAppend(ctx context.Context, rng *rand.Rand, s *sut, viol violFn) {
 	e := reflog.Ev{Type: jgen.TypeString(rng), Data: jgen.Doc(rng, true), Time: jgen.Timestamp(rng)}
@@ -588,7 +589,18 @@ func doStream(ctx context.Context, rng *rand.Rand, s *sut, viol violFn) {
 		}
 		rerangedStreams.Add(1)
 	}
+	wrote := 0
 	for e, err := range stream {
+		if err == nil && !busy && s.o.Sub != nil && wrote < 2 {
+			// the consumer records how far it has got while the stream is still open (what a replaying
+			// subscription does for every event): the store takes that write
+			wrote++
+			if werr := s.o.Sub.SaveOffset(ctx, "stream-consumer", e.Offset); werr != nil {
+				viol(s, "write-refused-while-streaming", origin, fmt.Sprintf("SaveOffset called by the consumer of ReadStream(%q) while the stream was open failed: %v", from, werr))
+				return
+			}
+			consumerWrites.Add(1)
+		}
 		if err != nil {
 			if busy && strings.Contains(err.Error(), "SQLITE_BUSY") {
 				endedWithBusy = true
